@@ -55,6 +55,12 @@ class Inconclusive(Exception):
     """The case could not be judged (budget exhausted, precondition not met)."""
 
 
+class _GuardAbort(SystemExit):
+    """Raised by the per-case guard's signal handler to get out of the case. A SystemExit so that
+    neither the server's `except Exception` handlers nor asyncio's task machinery keep it; the
+    verdict itself travels in the guard's state, not in this exception."""
+
+
 class Frozen(BaseException):
     """Ends a Hypothesis run at once after a non_yielding_loop violation: every replay of such a
     case costs FROZEN_CPU seconds, so it is reported as found, not shrunk."""
@@ -96,9 +102,16 @@ def guarded_run_case(part: Any, case: Any) -> Any:
         return " <- ".join(where[:6]) if where else None
 
     def on_alarm(signum: int, frame: Any) -> None:
+        # The verdict is kept here and wins over whatever the case ends with: an exception
+        # thrown from a signal handler lands at an arbitrary point of the code under test, which
+        # may catch it (`except Exception` around an application call) and carry on in a state
+        # no oracle should judge. Once decided, every further tick aborts again.
+        if st.get("verdict") is not None:
+            raise _GuardAbort()
         now = time.monotonic()
         if now - st["t0"] > limit:
-            raise Inconclusive(f"case exceeded {limit}s of wall clock")
+            st["verdict"] = Inconclusive(f"case exceeded {limit}s of wall clock")
+            raise _GuardAbort()
         if ticks[0] != st["ticks"]:
             st["ticks"], st["cpu"], st["moved"] = ticks[0], time.process_time(), True
             return
@@ -109,16 +122,25 @@ def guarded_run_case(part: Any, case: Any) -> Any:
             where = in_server_code(frame)
             if where is not None:
                 st["cpu"] = time.process_time()
-                raise Violation("non_yielding_loop", f"{burnt:.0f} s of CPU without one "
-                                f"scheduler iteration, inside {where}")
+                st["verdict"] = Violation("non_yielding_loop", f"{burnt:.0f} s of CPU without "
+                                          f"one scheduler iteration, inside {where}")
+                raise _GuardAbort()
 
     old = signal.signal(signal.SIGALRM, on_alarm)
     signal.setitimer(signal.ITIMER_REAL, 2.0, 2.0)
     try:
-        return part.run_case(case)
-    finally:
-        signal.setitimer(signal.ITIMER_REAL, 0)
-        signal.signal(signal.SIGALRM, old)
+        try:
+            result = part.run_case(case)
+        finally:
+            signal.setitimer(signal.ITIMER_REAL, 0)
+            signal.signal(signal.SIGALRM, old)
+    except BaseException:
+        if st.get("verdict") is not None:
+            raise st["verdict"] from None
+        raise
+    if st.get("verdict") is not None:
+        raise st["verdict"]
+    return result
 
 
 @dataclass
